@@ -70,6 +70,7 @@ func repoDir() string {
 
 type poolProc struct {
 	cmd    *exec.Cmd
+	exited chan struct{}
 	addr   string
 	mu     sync.Mutex
 	stderr []string
@@ -88,40 +89,69 @@ func startPool(t interface{ Fatalf(string, ...interface{}) }, extra ...string) *
 	return startPoolOn(t, "127.0.0.1", extra...)
 }
 
-// startPoolOn starts the pool binary listening on the given host ("127.0.0.1", "[::]", ...).
+// startPoolOn starts the pool binary listening on the given host ("127.0.0.1", "[::]", ...). The port is picked
+// by asking the kernel for a free one, which can collide with a parallel test process doing the same: a pool that
+// exits right away (bind error) is started again on another port.
 func startPoolOn(t interface{ Fatalf(string, ...interface{}) }, host string, extra ...string) *poolProc {
 	bin, err := vipnodeBinary()
 	if err != nil {
 		t.Fatalf("%v", err)
 	}
-	p := &poolProc{addr: fmt.Sprintf("%s:%d", host, freePort())}
-	args := append([]string{"pool", "--store=memory", "--bind", p.addr}, extra...)
-	p.cmd = exec.Command(bin, args...)
-	p.cmd.Env = append(os.Environ(), "HOME="+os.TempDir())
-	pipe, _ := p.cmd.StderrPipe()
-	if err := p.cmd.Start(); err != nil {
-		t.Fatalf("start pool: %v", err)
-	}
-	go func() {
-		sc := bufio.NewScanner(pipe)
-		sc.Buffer(make([]byte, 1<<20), 1<<20)
-		for sc.Scan() {
-			p.mu.Lock()
-			p.stderr = append(p.stderr, sc.Text())
-			p.mu.Unlock()
+	var last *poolProc
+	for attempt := 0; attempt < 6; attempt++ {
+		p := &poolProc{addr: fmt.Sprintf("%s:%d", host, freePort()), exited: make(chan struct{})}
+		last = p
+		args := append([]string{"pool", "--store=memory", "--bind", p.addr}, extra...)
+		p.cmd = exec.Command(bin, args...)
+		p.cmd.Env = append(os.Environ(), "HOME="+os.TempDir())
+		pipe, _ := p.cmd.StderrPipe()
+		if err := p.cmd.Start(); err != nil {
+			t.Fatalf("[setup failed] start pool: %v", err)
 		}
-	}()
-	deadline := time.Now().Add(20 * time.Second)
-	for time.Now().Before(deadline) {
-		c, err := net.DialTimeout("tcp", p.addr, 200*time.Millisecond)
-		if err == nil {
-			c.Close()
-			return p
+		scanned := make(chan struct{})
+		go func() {
+			sc := bufio.NewScanner(pipe)
+			sc.Buffer(make([]byte, 1<<20), 1<<20)
+			for sc.Scan() {
+				p.mu.Lock()
+				p.stderr = append(p.stderr, sc.Text())
+				p.mu.Unlock()
+			}
+			close(scanned)
+		}()
+		go func() {
+			<-scanned
+			p.cmd.Wait()
+			close(p.exited)
+		}()
+		deadline := time.Now().Add(20 * time.Second)
+		up := false
+		for time.Now().Before(deadline) && !up {
+			select {
+			case <-p.exited:
+				deadline = time.Now() // bind failed or crashed at start: try another port
+				continue
+			default:
+			}
+			c, err := net.DialTimeout("tcp", p.addr, 200*time.Millisecond)
+			if err == nil {
+				c.Close()
+				up = true
+				break
+			}
+			time.Sleep(30 * time.Millisecond)
 		}
-		time.Sleep(30 * time.Millisecond)
+		if up {
+			// make sure it is OUR process that listens there (a process that lost the race for the port exits at once)
+			select {
+			case <-p.exited:
+			case <-time.After(40 * time.Millisecond):
+				return p
+			}
+		}
+		p.stop()
 	}
-	p.stop()
-	t.Fatalf("pool binary did not start listening on %s; stderr: %v", p.addr, p.log())
+	t.Fatalf("[setup failed] pool binary did not start listening (last attempt on %s); stderr: %v", last.addr, last.log())
 	return nil
 }
 
@@ -134,7 +164,11 @@ func (p *poolProc) log() string {
 func (p *poolProc) stop() {
 	if p.cmd != nil && p.cmd.Process != nil {
 		p.cmd.Process.Kill()
-		p.cmd.Wait()
+		if p.exited != nil {
+			<-p.exited
+		} else {
+			p.cmd.Wait()
+		}
 	}
 }
 
@@ -222,7 +256,6 @@ func TestC09Binary(t *testing.T) {
 	rec.Assume("binary-level timing is one-sided: a state is accepted as soon as it is observed within 10 s of the event; a slow server can only delay, never fake, the expected state")
 	p := startPool(t)
 	defer p.stop()
-	defer os.Remove(binPath)
 	ctxAll, cancelAll := context.WithCancel(context.Background())
 	defer cancelAll()
 	// one client over HTTP for probing
